@@ -386,6 +386,7 @@ def check_lifecycle(prop, tier, seed, replay=None):
             for (name, text), r in zip(base, base_res):
                 if r.blocks:
                     scripts.extend(families.crash_variants(name, text, r.blocks))
+                    scripts.extend(families.fault_crash_variants(name, text, r.blocks))
             scripts += base
         elif prop == "C11":
             base = families.with_aligned(families.fam_C09(seed, nd) + families.fam_C05(seed + 7, max(5, nd // 3)) +
